@@ -213,7 +213,7 @@ def worker(args):
     if "replay" in args:
         c = args["replay"]
         rec.ev()
-        lab.new_universe(ents=c["ents"], names=c.get("names"))
+        lab.new_universe(ents=c["ents"], names=c.get("names"), only_default=c.get("only_default"))
         f = lab.finders[c["finder"]]
         if c.get("rule") in ("comma", "alias", "dstar"):
             for rule, ders, post in derive(lab, c["search"]):
@@ -227,7 +227,7 @@ def worker(args):
     for u in range(args["universes"]):
         ents = lab.new_universe(names=rng.sample(["a", "a-b", "ab", "b", "oph", "x_rig", "a.b", "rig"], 3))
         uid = "%s-%d" % (args.get("seed"), u)
-        case = {"ents": ents, "names": lab.names, "uid": uid}
+        case = {"ents": ents, "names": lab.names, "only_default": lab.only_default, "uid": uid}
         for k in range(args["searches"]):
             s, info = lab.search(allow_last=False)
             if filter_is_unspecified(s) or ">" in s:
